@@ -48,6 +48,11 @@ pub fn aux(id: u32, what: &str) {
 /// The `args = ...` expression of bench `id` was evaluated.
 pub fn counted<I>(id: u32, iter: I) -> I {
     push(format!("ARGS\t{id}"));
+    // a slow `args` expression (ZOO_ARGS_DELAY_MS): widens the window in which a second thread can find
+    // the list uninitialised
+    if let Some(ms) = std::env::var("ZOO_ARGS_DELAY_MS").ok().and_then(|v| v.parse::<u64>().ok()) {
+        std::thread::sleep(std::time::Duration::from_millis(ms));
+    }
     iter
 }
 
@@ -201,7 +206,8 @@ pub fn run() {
                 "run_only_ignored" => cur.run_only_ignored(),
                 "skip_regex" => cur.skip_regex(value),
                 "skip_exact" => cur.skip_exact(value),
-                "list" | "test" | "bench" | "main" => {
+                "config_with_args" => cur.config_with_args(),
+                "list" | "test" | "bench" | "main" | "par2_test" => {
                     action = name.to_owned();
                     cur
                 }
@@ -213,6 +219,18 @@ pub fn run() {
             "list" => d.list_benches(),
             "test" => d.test_benches(),
             "bench" => d.run_benches(),
+            // two test runs started at the same time on two threads of this process
+            "par2_test" => {
+                let gate = std::sync::Barrier::new(2);
+                std::thread::scope(|s| {
+                    for _ in 0..2 {
+                        s.spawn(|| {
+                            gate.wait();
+                            divan::Divan::default().run_ignored().skip_regex("^zoo::pnc").test_benches();
+                        });
+                    }
+                });
+            }
             _ => d.main(),
         }
     }
